@@ -421,7 +421,7 @@ func (r *replayer) replay(v *Violation) *replayOutcome {
 	defer os.Remove(f.Name())
 	cmd := exec.Command(bin, "-test.run", "^TestVerifReplay$", "-test.timeout", "60s")
 	cmd.Dir = filepath.Join(r.repo, pkgDirs[pkg])
-	cmd.Env = append(os.Environ(), "VERIF_REPLAY_FILE="+f.Name())
+	cmd.Env = append(os.Environ(), "VERIF_REPLAY_FILE="+f.Name(), "VERIF_REPO_ROOT="+r.repo)
 	out, _ := cmd.CombinedOutput()
 	for _, line := range strings.Split(string(out), "\n") {
 		if rest, ok := strings.CutPrefix(line, "REPLAY-RESULT "); ok {
@@ -544,6 +544,7 @@ func checkMain(args []string) int {
 	var cands []cand
 	seenKey := map[string]bool{}
 	var witnesses []witnessItem
+	knownInstances := map[string][]string{}
 	if os.Getenv("GOSYM_VERBOSE") != "" {
 		for _, r := range results {
 			if r != nil {
@@ -602,6 +603,9 @@ func checkMain(args []string) int {
 			}
 		}
 		for _, v := range r.Violations {
+			if v.Known != "" && len(knownInstances[v.Known]) < 400 {
+				knownInstances[v.Known] = append(knownInstances[v.Known], fmt.Sprintf("%s%v %s", v.Harness, v.Args, v.Name))
+			}
 			key := fmt.Sprintf("%s|%s|%s|%s", v.Harness, v.Kind, v.Name, v.Known)
 			if v.Kind == "panic" || v.Kind == "mutation" || v.Kind == "deadlock" {
 				key += "|" + firstLines(v.Detail, 1)
@@ -793,6 +797,7 @@ func checkMain(args []string) int {
 			"vacuous_harnesses":             vacuous,
 			"counterexamples_replayed":      nReplayed,
 			"encoding_discrepancies":        discrepancies,
+			"known_finding_instances":       knownInstances,
 			"witnesses_replayed":            nWitness,
 			"witness_mismatches":            witnessBad,
 			"known_findings_matched":        nKnown,
